@@ -13,6 +13,13 @@
 open Model
 open Helpers
 
+(* the instances are functions of unit in the model (see PointCodec.v); evaluate them once *)
+let k256_codec = k256_codec_f () and p256_codec = p256_codec_f ()
+let pallas_codec = pallas_codec_f () and vesta_codec = vesta_codec_f ()
+let blsg1_codec = blsg1_codec_f () and ed25519_codec = ed25519_codec_f ()
+let curve25519_params = curve25519_params_f ()
+let curve25519_c = curve25519_params.mp_c
+
 let wcodec_of = function
   | "k256" -> k256_codec | "p256" -> p256_codec | "pallas" -> pallas_codec
   | "vesta" -> vesta_codec | "blsg1" -> blsg1_codec
@@ -55,13 +62,13 @@ let parse_x (s : string) : ept =
     | _ -> failwith ("bad point " ^ s)
 
 let field_of = function
-  | "k256.fp" -> (k256_params.wp_p, 32) | "k256.fq" -> (k256_params.wp_n, 32)
-  | "p256.fp" -> (p256_params.wp_p, 32) | "p256.fq" -> (p256_params.wp_n, 32)
-  | "pallas.fp" -> (pallas_params.wp_p, 32) | "pallas.fq" -> (pallas_params.wp_n, 32)
-  | "vesta.fp" -> (vesta_params.wp_p, 32) | "vesta.fq" -> (vesta_params.wp_n, 32)
-  | "bls.fp" -> (bls12381_p, 48) | "bls.fq" -> (bls12381_r, 32)
-  | "ed.fq" -> (ed25519_params.ep_n, 32)
-  | "ed.fp" -> (ed25519_params.ep_p, 32)
+  | "k256.fp" -> (k256_codec.wc.wp_p, 32) | "k256.fq" -> (k256_codec.wc.wp_n, 32)
+  | "p256.fp" -> (p256_codec.wc.wp_p, 32) | "p256.fq" -> (p256_codec.wc.wp_n, 32)
+  | "pallas.fp" -> (pallas_codec.wc.wp_p, 32) | "pallas.fq" -> (pallas_codec.wc.wp_n, 32)
+  | "vesta.fp" -> (vesta_codec.wc.wp_p, 32) | "vesta.fq" -> (vesta_codec.wc.wp_n, 32)
+  | "bls.fp" -> (blsg1_codec.wc.wp_p, 48) | "bls.fq" -> (blsg1_codec.wc.wp_n, 32)
+  | "ed.fq" -> (ed25519_codec.ec.ep_n, 32)
+  | "ed.fp" -> (ed25519_codec.ec.ep_p, 32)
   | s -> failwith ("unknown field " ^ s)
 
 let show_f = function None -> "REJ" | Some v -> "OK " ^ hex_of_z v
@@ -118,10 +125,10 @@ let () =
       | ["AX"; "blsg1"; x; odd] -> show_w (blsg1_from_affine_x blsg1_codec (z_of_hex x) (odd = "1"))
       | ["AX"; codec; x; odd] -> show_w (w_from_affine_x (wcodec_of codec) (z_of_hex x) (odd = "1"))
       | ["F"; fld; h] ->
-        if fld = "ed.fp" then show_f (fld25519_from_bytes ed25519_params.ep_p (bytes_of_hex h))
+        if fld = "ed.fp" then show_f (fld25519_from_bytes ed25519_codec.ec.ep_p (bytes_of_hex h))
         else let (q, len) = field_of fld in show_f (fld_from_bytes q (nat_of_int len) (bytes_of_hex h))
       | ["W"; fld; h] ->
-        if fld = "ed.fp" then show_f (fld25519_from_wide ed25519_params.ep_p (bytes_of_hex h))
+        if fld = "ed.fp" then show_f (fld25519_from_wide ed25519_codec.ec.ep_p (bytes_of_hex h))
         else let (q, len) = field_of fld in show_f (fld_from_wide q (nat_of_int len) (bytes_of_hex h))
       | ["FE"; fld; v] -> let (_, len) = field_of fld in hex_of_bytes (fld_enc (nat_of_int len) (z_of_hex v))
       | ["QR"; codec] -> let c = wcodec_of codec in hex_of_z (euler (wc_p c) c.wc.wp_b)
